@@ -22,10 +22,12 @@ class Verdict:
         self.info = info or {}
         self.paths = paths
         self.reason = reason
+        self.z3_model = None       # the (definite or candidate) counter-model object, in-process only
+        self.witness = None        # concretised input for the replayer (JSON-able)
 
     def as_dict(self):
         return dict(name=self.name, status=self.status, backend=self.backend, time_s=round(self.time_s, 3),
-                    model=self.model, info=self.info, paths=self.paths, reason=self.reason)
+                    model=self.model, info=self.info, paths=self.paths, reason=self.reason, witness=self.witness)
 
 
 def _has_strings(smt2):
@@ -112,6 +114,7 @@ def discharge(ob, base_axioms, timeout_s=20, seed=0, both=False, keep_model=True
     if z3.is_true(ob.formula):
         return Verdict(ob.name, 'discharged', 'syntactic', 0.0, info=ob.info)
     info = dict(ob.info)
+    zm = None
     s1 = _solver(base_axioms, ob, timeout_s, seed, mbqi=False)
     r1 = s1.check(z3.Bool('!go')) if False else s1.check()
     backend = 'z3'
@@ -124,12 +127,19 @@ def discharge(ob, base_axioms, timeout_s=20, seed=0, both=False, keep_model=True
     elif r1 == z3.sat:
         status = 'refuted'
         info['definite'] = True
+        zm = s1.model()
         if keep_model:
-            model = model_summary(s1.model())
+            model = model_summary(zm)
     else:
         reason = s1.reason_unknown()
         saturated = 'incomplete' in reason
         cand = None
+        zm = None
+        if saturated:
+            try:
+                zm = s1.model()
+            except Exception:
+                zm = None
         if saturated and ob.concrete_fail:
             # a structural failure on a path the executor found feasible: nothing to search for
             info['definite'] = False
@@ -147,8 +157,9 @@ def discharge(ob, base_axioms, timeout_s=20, seed=0, both=False, keep_model=True
         elif r2 == z3.sat:
             status, backend = 'refuted', 'z3(mbqi)'
             info['definite'] = True
+            zm = s2.model()
             if keep_model:
-                model = model_summary(s2.model())
+                model = model_summary(zm)
         else:
             reason += ' | mbqi: ' + s2.reason_unknown()
             cv, why = 'unknown', 'not run'
@@ -180,7 +191,10 @@ def discharge(ob, base_axioms, timeout_s=20, seed=0, both=False, keep_model=True
             pass
     if ob.concrete_fail and status == 'refuted':
         reason = ob.concrete_fail
-    return Verdict(ob.name, status, backend, time.time() - t0, model=model, info=info, reason=reason)
+    v = Verdict(ob.name, status, backend, time.time() - t0, model=model, info=info, reason=reason)
+    if status == 'refuted':
+        v.z3_model = locals().get('zm')
+    return v
 
 
 def merge_verdicts(verdicts):
